@@ -11,6 +11,7 @@
 import ASV.Proofs.Refines
 import ASV.Proofs.SpecClasses
 import ASV.Proofs.SpecAddGroups
+import ASV.Proofs.KeysAgree
 namespace ASV.C05
 open ASV ASV.CC ASV.CC.Spec
 
@@ -531,6 +532,45 @@ example :
           && st.singles.map (·.id) == [2]
       | .error _ => false) = true := by decide +kernel
 
+/-- The key of the model (`gkey`: `locKey` of the candidate built from the group in collection order)
+    and the key of the reference (`skey`: `coords` of the span of the group sorted by id) agree on a
+    linear record — `connect` does not depend on the order of its arguments (C04 `connect_line_perm`):
+    the model's key `k` is the reference's key `[k]`, so two groups share a slot of the model's table
+    exactly when they share an entry of the reference. -/
+theorem reference_and_model_keys_agree_on_line (kind : Kind) (g1 g2 : List Proto) (k1 k2 : Int × Int)
+    (h1 : LineGroup g1) (h2 : LineGroup g2) (hk1 : gkey none kind g1 = some k1) (hk2 : gkey none kind g2 = some k2) :
+    skey none g1 = some [k1] ∧ skey none g2 = some [k2] ∧
+    (gkey none kind g1 = gkey none kind g2 ↔ skey none g1 = skey none g2) :=
+  ⟨keys_agree_line h1 hk1, keys_agree_line h2 hk2, same_slot_iff_same_entry_line h1 h2 hk1 hk2⟩
+
+/-- On a circular record (every extent a valid feature location of the record) the two keys are read
+    off one and the same location (C04 `connect_ring_perm`). -/
+theorem reference_and_model_keys_from_one_location_on_ring (L : Int) (kind : Kind) (g : List Proto) (k : Int × Int)
+    (hL : 0 < L) (hne : g ≠ []) (hin : ∀ p, p ∈ g → RingIn L p.loc) (hk : gkey (some L) kind g = some k) :
+    ∃ l, skey (some L) g = some (coords l) ∧ k = locKey l :=
+  keys_agree_ring hL hne hin hk
+
+/-- This connects `build_candidates_is_order_free` (model) with `reference_table_step_is_order_free`
+    (reference): on a linear record one table step of each with the same groups keeps the two tables in
+    step — if slot `k` of the model and entry `[k]` of the reference had the same members, the same
+    kinds and the same key sets before the step, they have them after it.  (The promoted singles are not
+    part of this statement: they need the entry-wise relation, not the three per-key ones.) -/
+theorem table_steps_stay_in_step_on_line (kind : Kind) (t t' : Table) (st st' : State) (gs : List (List Proto))
+    (hg : ∀ g, g ∈ gs → LineGroup g ∧ ∃ k, gkey none kind g = some k)
+    (hM : PassDesc none kind t t' gs) (hS : SpecPassDesc none kind st st' gs)
+    (hmem : ∀ k x, memOf t k x ↔ sMem st [k] x) (hkind : ∀ k kd, kindOf t k kd ↔ sKind st [k] kd)
+    (hkeys : ∀ k, k ∈ keys t.existing ↔ [k] ∈ sKeys st) :
+    (∀ k x, memOf t' k x ↔ sMem st' [k] x) ∧ (∀ k kd, kindOf t' k kd ↔ sKind st' [k] kd) ∧
+    (∀ k, k ∈ keys t'.existing ↔ [k] ∈ sKeys st') :=
+  table_steps_agree_line hg hM hS hmem hkind hkeys
+
+/-- a group whose id order differs from its collection order: both keys are defined and agree -/
+example :
+    let g : List Proto := [⟨0, .simple ⟨15, 30, .fwd⟩, .simple ⟨15, 30, .fwd⟩, [], ""⟩,
+                           ⟨1, .simple ⟨10, 20, .fwd⟩, .simple ⟨10, 20, .fwd⟩, [], ""⟩]
+    gkey none .interleaved g = some (10, 30) ∧ skey none g = some [(10, 30)] ∧
+    (sortById g).map (·.id) = [0, 1] ∧ (sortProtos g).map (·.id) = [1, 0] := by decide +kernel
+
 /-- Still not proved: equality with the *executable* `Spec.reference` (the correspondence compares every
     implementation output with it).  `formation_refines_reference_linear` gives the run stage by stage in
     the reference's own notions, and `reference_hybrid_classes_are_chain_classes` /
@@ -538,8 +578,8 @@ example :
     reference produce exactly those notions (item (1) of the earlier list, now proved).  What is still
     missing for the equality is
     (2) (`Spec.addGroups` satisfies the five clauses of `PassDesc`: `reference_table_step_is_order_free`, now
-        proved; open: that the reference's key `skey` and the model's `gkey` agree, i.e. `connect` does not
-        depend on the order of the members) the unit
+        proved, and the keys agree: `reference_and_model_keys_agree_on_line`, `table_steps_stay_in_step_on_line`;
+        open: the same step relation for the promoted singles) the unit
         hypotheses of `reference_overlap_groups_are_chain_classes` for the reference's own units
         (`unitsOf`: entries have distinct keys and disjoint or nested members), and the unfolding of the
         monadic `reference` into its six stages,
